@@ -330,7 +330,10 @@ theorem replace_ok {f : Forest} {a b : Nat} (inv : f.Inv) (norm : f.Normal)
           rw [hx] at hok
           simp only at hok
           subst hok
-          rfl
+          -- whatever the final consolidation looks at, the outcome is `ok`
+          first
+            | rfl
+            | (simp only; split <;> rfl)
 
 end Prog2
 end XotModel
